@@ -287,6 +287,15 @@ def classify(case, f):
     return None
 
 
+def _fragment_findings():
+    """Open C13 entries of known_findings.d/C13.json, used when known_findings.json has not been re-assembled
+    (read-only; the committed list is never written by the check)."""
+    path = os.path.join(common.VERIF, "known_findings.d", PID + ".json")
+    if not os.path.exists(path):
+        return []
+    return [f for f in json.load(open(path)) if f.get("property") == PID and f.get("status") == "open"]
+
+
 def finding_line(cls, findings):
     for kf in findings:
         if kf.get("class") == cls:
@@ -366,6 +375,11 @@ GENERATED_LOOKALIKES = ["y", "y_0", "y_1", "y_01", "y__0", "y_", "Y", "Y_0", "y_
                         "<state>y", "<state>Y", "<state>y_0", "<p>y", "<p>Y", "<ret_state>y", "<ret_time>y",
                         "<ret_time_id>y", "<ret_time>id_y", "<t>", "<dt>", "<func>y", "<func>Y", "<func>y_0",
                         "<cond>y", "<builtin>y", "y^", "y*", "<state>y^", "<state>y*", "<p>y^", "<p>y*"]
+
+
+QUICK_LOOKALIKES = ["y", "y_0", "y_1", "y_01", "y_", "Y", "Y_0", "_y", "0", "lploc_y", "LPLOC_y", "drtf_y", "localy",
+                    "dagrt_var", "<state>y", "<state>Y", "<state>y_0", "<p>y", "<func>y", "<func>Y", "y^", "y*",
+                    "<state>y^", "<state>y*", "if", "run", "t"]
 
 
 def random_name(rng):
@@ -448,33 +462,34 @@ def gen_cases(tier, seed):
         for (k,) in tuples(n1, 1):
             cases.append((target, seq_mixed(target, (k,))))
             cases.append((target, seq_functions(target, (k,))))
-        for ks in tuples([n for n in GENERATED_LOOKALIKES], 2):
-            cases.append((target, seq_locals(target, ks) if not any(persistent(k) for k in ks)
-                          else [("I", k) for k in ks] * 2))
-            cases.append((target, seq_functions(target, ks)))
+        look = QUICK_LOOKALIKES if tier == "quick" else GENERATED_LOOKALIKES
+        for ks in itertools.permutations(look, 2):                     # tags: no renaming of punctuation here
+            half = [("I", k) for k in ks] + [("F", k) for k in ks]
+            cases.append((target, half + half))
         pair_names = n2 if tier == "quick" else n1
         for ks in tuples(pair_names, 2):
-            cases.append((target, seq_locals(target, ks)))
+            if tier == "quick" or len(ks[0]) + len(ks[1]) <= 4:
+                cases.append((target, seq_locals(target, ks)))
             cases.append((target, seq_mixed(target, ks, rev=len(ks[0]) % 2 == 1)))
         if tier != "quick":
             for ks in tuples(n2, 2):
                 cases.append((target, seq_mixed(target, ks, rev=len(ks[0]) % 2 == 0)))
                 cases.append((target, seq_globals(target, ks)))
                 cases.append((target, seq_functions(target, ks)))
-        trip_names = short_names(1) + ["a_", "a0", "_0", "a^", "a*", "A^", "00", "a_0"] if tier == "quick" else n2
+        trip_names = short_names(1) + ["a_0", "a^", "a*"] if tier == "quick" else n2
         for ks in tuples(trip_names, 3):
             cases.append((target, seq_locals(target, ks)))
-            if tier != "quick" or len(ks[0]) <= 1:
+            if len(ks[0]) <= 1:
                 cases.append((target, seq_mixed(target, ks, rev=len(ks[1]) % 2 == 1)))
         # length-3 names meet their look-alikes: (x, y) with y a generated-looking variant of x
         for x in small3:
             if len(x) == 3:
-                for y in {x.swapcase(), x + "_0", x[:-1] + "^", x[:-1] + "*", "_" + x, x + "_"} - {x}:
+                for y in sorted({x.swapcase(), x + "_0", x[:-1] + "^", x[:-1] + "*", "_" + x, x + "_"} - {x}):
                     ks = canonical((x, y))
                     cases.append((target, seq_mixed(target, ks)))
     n_exh = len(cases) - n_corpus
     rng = random.Random(seed * 7919 + 13)
-    nrand = 3000 if tier == "quick" else 60000
+    nrand = 1600 if tier == "quick" else 40000
     for i in range(nrand):
         cases.append(random_case(rng, "py" if i % 2 else "f"))
     dist = {"corpus": n_corpus, "exhaustive": n_exh, "random": nrand,
@@ -484,7 +499,7 @@ def gen_cases(tier, seed):
                                 "their case/punctuation/counter variants; tuples are taken up to renaming of the "
                                 "punctuation characters <>^* (interchangeable for the code)"
                                 % (2 if tier == "quick" else 3,
-                                   "length <= 1 plus 8 two/three-character names" if tier == "quick"
+                                   "length <= 1 plus a_0, a^, a*" if tier == "quick"
                                    else "length <= 2")}
     return cases, dist
 
@@ -690,7 +705,7 @@ def main(tier):
     rep = common.Reporter(PID, tier)
     seed = common.seed()
     ps = common.proof_stage(rep, PID, gen=["c13"])
-    known = common.known_findings(PID)
+    known = common.known_findings(PID) or _fragment_findings()
 
     cases, dist = gen_cases(tier, seed)
     results = [run_impl(c) for c in cases]
